@@ -24,6 +24,7 @@ macro_rules! props {
 props! {
     "C02" => c02,
     "C03" => c03,
+    "C06" => c06,
     "C08" => c08,
     "C09" => c09,
     "C13" => c13,
@@ -36,6 +37,11 @@ props! {
 }
 
 /// subprocess worker entry (crash-isolated families); returns the process exit code
-pub fn worker(_prop: &str, _args: &[String]) -> i32 {
-    2
+pub fn worker(prop: &str, args: &[String]) -> i32 {
+    install_panic_hook();
+    let Some(w) = WorkerArgs::parse(args) else { return 2 };
+    match prop {
+        "C06" => c06::worker(&w),
+        _ => 2,
+    }
 }
